@@ -360,7 +360,71 @@ fn reject_then_continue(i: &Input) -> Outcome {
     Ok(())
 }
 
+/// Every tag byte travels through the object API unchanged.  Inputs: k,
+/// header, tags (one message per byte), dseed.  Three directions per message:
+/// libsodium pushes / DryocStream pulls, classic push / DryocStream pulls,
+/// DryocStream pushes (Tag::from_bits_retain) / libsodium and DryocStream pull.
+/// All streams carry the same messages, so they stay in lockstep (a tag with
+/// the REKEY bit rekeys every one of them).
+fn tag_bytes_object(i: &Input) -> Outcome {
+    let (k, header) = (i.arr::<32>("k"), i.arr::<24>("header"));
+    let tags = i.get("tags");
+    let mut data = Rng::new(i.num("dseed"));
+    let key = Key::from(k);
+
+    // chosen header: libsodium push -> DryocStream pull, classic push -> DryocStream pull
+    let mut sp = so::stream_init_pull(&header, &k);
+    let mut cp = ss::State::new();
+    ss::crypto_secretstream_xchacha20poly1305_init_pull(&mut cp, &header, &k);
+    let mut pull_s = DryocStream::init_pull(&key, &Header::from(header));
+    let mut pull_c = DryocStream::init_pull(&key, &Header::from(header));
+    // dryoc's own header: DryocStream push -> libsodium pull, DryocStream pull
+    let (mut push, h2): (_, Header) = DryocStream::init_push(&key);
+    let h2a: [u8; 24] = *h2.as_array();
+    let mut sl = so::stream_init_pull(&h2a, &k);
+    let mut pull_d = DryocStream::init_pull(&key, &h2);
+
+    for (idx, tag) in tags.iter().copied().enumerate() {
+        let mlen = data.below(40);
+        let m = data.bytes(mlen);
+        let adlen = data.below(9);
+        let adv = data.bytes(adlen);
+        let (ad_d, ad_s): (Option<&Vec<u8>>, Option<&[u8]>) =
+            if adlen == 0 { (None, None) } else { (Some(&adv), Some(&adv)) };
+        let what = format!("message #{} pushed with tag byte {:#04x}", idx, tag);
+
+        let cs = so::stream_push(&mut sp, &m, ad_s, tag);
+        let (pm, pt) = must_ok(pull_s.pull_to_vec(&cs, ad_d), &format!("DryocStream::pull of libsodium's {}", what))?;
+        eq(&format!("DryocStream::pull message, libsodium's {}", what), &m, &pm)?;
+        eq(&format!("tag reported by DryocStream::pull for libsodium's {}", what), &[tag], &[pt.bits()])?;
+
+        let cc = d_push(&mut cp, &m, ad_s, tag, idx)?;
+        eq(&format!("classic push ciphertext, {}", what), &cs, &cc)?;
+        let r: Result<(Vec<u8>, Tag), _> = pull_c.pull(&cc, ad_d);
+        let (pm, pt) = must_ok(r, &format!("DryocStream::pull of the classic API's {}", what))?;
+        eq(&format!("DryocStream::pull message, classic {}", what), &m, &pm)?;
+        eq(&format!("tag reported by DryocStream::pull for the classic API's {}", what), &[tag], &[pt.bits()])?;
+
+        let cd = must_ok(
+            push.push_to_vec(&m, ad_d, Tag::from_bits_retain(tag)),
+            &format!("DryocStream::push, {}", what),
+        )?;
+        match so::stream_pull(&mut sl, &cd, ad_s) {
+            Some((pm, pt)) => {
+                eq(&format!("libsodium pull of DryocStream's {}", what), &m, &pm)?;
+                eq(&format!("tag reported by libsodium for DryocStream's {}", what), &[tag], &[pt])?;
+            }
+            None => return fail("Ok", "Err", format!("libsodium rejects DryocStream's {}", what)),
+        }
+        let (pm, pt) = must_ok(pull_d.pull_to_vec(&cd, ad_d), &format!("DryocStream::pull of DryocStream's {}", what))?;
+        eq(&format!("DryocStream::pull message, DryocStream's {}", what), &m, &pm)?;
+        eq(&format!("tag reported by DryocStream::pull for DryocStream's {}", what), &[tag], &[pt.bits()])?;
+    }
+    Ok(())
+}
+
 pub const C03: Registry = &[
+    ("tag_bytes_object", tag_bytes_object),
     ("lockstep", lockstep),
     ("lockstep_object", lockstep_object),
     ("reject_then_continue", reject_then_continue),
@@ -427,6 +491,31 @@ pub fn c03(ctx: &mut Ctx) -> Search {
         .map(|tg| op(OP_PUSH, *tg, 2, 20))
         .collect();
     mk(ctx, &ops, None, false)?;
+    // 4b. all 256 tag bytes through the object API, both directions (one
+    //     short stream per byte first, then streams carrying all of them)
+    {
+        let mut tseed = 5000u64;
+        let (k, header) = (ctx.rng.arr::<32>(), ctx.rng.arr::<24>());
+        let all: Vec<u8> = (0..=255u8).collect();
+        for tg in all.iter().copied() {
+            tseed += 1;
+            ctx.run(
+                "tag_bytes_object",
+                Input::new().b("k", &k).b("header", &header).b("tags", &[tg, 0, tg]).u("dseed", tseed),
+            )?;
+        }
+        tseed += 1;
+        ctx.run(
+            "tag_bytes_object",
+            Input::new().b("k", &k).b("header", &header).b("tags", &all).u("dseed", tseed),
+        )?;
+        let rev: Vec<u8> = all.iter().rev().copied().collect();
+        tseed += 1;
+        ctx.run(
+            "tag_bytes_object",
+            Input::new().b("k", &k).b("header", &header).b("tags", &rev).u("dseed", tseed),
+        )?;
+    }
     // 5. counter values near the wrap (automatic rekey when it reaches 0)
     if probe_nonce_offset().is_some() {
         for start in [1u32, 0x7fff_ffff, 0xffff_fffe, 0xffff_ffff, 0x0000_ffff, 0x00ff_ffff] {
